@@ -125,7 +125,7 @@ impl<'a> PrettyPrinter<'a> {
             } else if node.kind() == SyntaxKind::Space {
                 // We can not arbitrarily break line here, as it may become ugly.
                 FlowItem::tight(if node.text().has_linebreak() {
-                    self.arena.line()
+                    self.arena.hardline()
                 } else {
                     self.arena.space()
                 })
